@@ -28,7 +28,7 @@ ASSUMPTIONS = [
 TIMEOUT = {"quick": 2400, "thorough": 7200}
 MIN_COUNTERS = {"quick": {"scripted_runs": 80, "validation_calls_logged": 120, "builtin_direct_calls": 3000, "builtin_in_solve_runs": 8,
                           "runs_stopped_early": 20},
-                "thorough": {"scripted_runs": 900, "validation_calls_logged": 2000, "builtin_direct_calls": 7000,
+                "thorough": {"scripted_runs": 900, "validation_calls_logged": 1200, "builtin_direct_calls": 7000,
                              "builtin_in_solve_runs": 60, "runs_stopped_early": 200}}
 _LOG = []
 
